@@ -1,5 +1,6 @@
 """C03 — exporting a database and re-importing it preserves the lexicons."""
 import copy
+import json
 import random
 import common
 import gendoc
@@ -68,6 +69,22 @@ def run(rep, tier, build, replay=None):
            'synsets': [{'id': 'ff-s1', 'ili': '', 'partOfSpeech': 'v', 'meta': None}]}
     cases.insert(0, {'resources': [('ff:1', {'lmf_version': '1.0', 'lexicons': [f18]})], 'style_seed': 7,
                      'export_sets': [['ff:1']], 'versions': versions})
+    # corpus: relations of one type between the same two synsets (and senses) that differ only in their metadata (dc:type, the
+    # idiom for non-standard relations): each is a relation of its own and must be exported
+    def rel(t, ty, m):
+        return {'target': t, 'relType': ty, 'meta': m}
+    dup = {'id': 'dd', 'label': 'dd', 'language': 'en', 'email': 'e', 'license': 'l', 'version': '1', 'meta': None,
+           'entries': [{'id': 'dd-e1', 'meta': None, 'lemma': {'writtenForm': 'tie', 'partOfSpeech': 'n'},
+                        'senses': [{'id': 'dd-e1-s1', 'synset': 'dd-s1', 'meta': None,
+                                    'relations': [rel('dd-e1-s2', 'other', {'type': 't1'}), rel('dd-e1-s2', 'other', {'type': 't2'}),
+                                                  rel('dd-s2', 'other', {'type': 't1'}), rel('dd-s2', 'other', {'type': 't2'})]},
+                                   {'id': 'dd-e1-s2', 'synset': 'dd-s2', 'meta': None}]}],
+           'synsets': [{'id': 'dd-s1', 'ili': 'i1', 'partOfSpeech': 'n', 'meta': None,
+                        'relations': [rel('dd-s2', 'other', {'type': 't1'}), rel('dd-s2', 'other', {'type': 't2'}),
+                                      rel('dd-s2', 'other', {'type': 't2', 'source': 'x'}), rel('dd-s2', 'hypernym', None)]},
+                       {'id': 'dd-s2', 'ili': '', 'partOfSpeech': 'n', 'meta': None}]}
+    cases.insert(1, {'resources': [('dd:1', {'lmf_version': '1.1', 'lexicons': [dup]})], 'style_seed': 8,
+                     'export_sets': [['dd:1']], 'versions': versions})
     nsh = min(common.NPROC, len(cases))
     outs = common.run_impl_parallel('run_C03.py', [{'cases': cases[i::nsh]} for i in range(nsh)])
     evals = 0
@@ -141,6 +158,27 @@ def run(rep, tier, build, replay=None):
                         rep.fail('examples or counts (text, language, metadata) differ in the export', cs,
                                  {'of': bad[:1], 'got': ex_.get(bad[0]) if bad else None,
                                   'expected': sx_.get(bad[0]) if bad else None})
+                    # relations, against the SOURCE DOCUMENT: every declared relation (type, target, metadata) is exported, also
+                    # several of one type to one target that differ only in metadata (the query API lists relations through
+                    # the same queries the export uses, so a loss there is invisible to the comparison of the two databases)
+                    def rels(owner):
+                        # (as a set: declarations that are identical in type, target and metadata are one relation — the
+                        # queries select DISTINCT rows — which is not a loss)
+                        return sorted({(r_['relType'], r_['target'], json.dumps(r_.get('meta') or None, sort_keys=True))
+                                       for r_ in owner.get('relations', [])})
+                    sr_ = {ss['id']: rels(ss) for ss in src['synsets']}
+                    er_ = {ss['id']: rels(ss) for ss in lx.get('synsets', [])}
+                    for e_s in src.get('entries', []):
+                        for se in e_s.get('senses', []):
+                            sr_[se['id']] = rels(se)
+                    for e_e in lx.get('entries', []):
+                        for se in e_e.get('senses', []):
+                            er_[se['id']] = rels(se)
+                    if sr_ != er_:
+                        bad = [k_ for k_ in sr_ if sr_[k_] != er_.get(k_)]
+                        rep.fail('relations (type, target, metadata) differ in the export', cs,
+                                 {'of': bad[:1], 'got': er_.get(bad[0]) if bad else None,
+                                  'expected': sr_.get(bad[0]) if bad else None})
                     # sense -> frames, against the SOURCE DOCUMENT (an error made while adding is exported faithfully and
                     # survives the round trip, so the comparison of the two databases cannot see it)
                     import expect
